@@ -59,7 +59,11 @@ def or_op(sid: str) -> List[str]:
     else:
         query = ""
 
-    sids = or_on_path(sid)
+    if sid.count(":"):  # sid is a uri: the "type:" prefix belongs to every alternative, not only to the first one
+        _type, sid = sid.split(":", 1)
+        sids = ["{}:{}".format(_type, s) for s in or_on_path(sid)]
+    else:
+        sids = or_on_path(sid)
 
     result = []
     if query:
